@@ -270,7 +270,7 @@ class Session:
         self.send_payload(c, json.dumps(msgs).encode(), chunks)
         self.stats["batches"] += 1
 
-    def reply(self, owner, p, kind="result", payload=None, idmode="right", chunks=None):
+    def reply(self, owner, p, kind="result", payload=None, idmode="right", chunks=None, raw_ctrl=False):
         """the owner answers forwarded request p"""
         if payload is None:
             payload = {"r": self.next_val(owner)} if kind == "result" else {"code": 4711, "message": "owner-error", "data": self.next_val(owner)}
@@ -278,7 +278,10 @@ class Session:
         if idmode == "forged":
             fid = "forged_%d" % self.rng.randrange(1 << 30)
         msg = {"id": fid, kind: payload}
-        sent = self.send_payload(owner, json.dumps(msg).encode(), chunks)
+        text = json.dumps(msg).encode()
+        if raw_ctrl:
+            text = text.replace(b"\\u0001", b"\x01")
+        sent = self.send_payload(owner, text, chunks)
         if sent and idmode == "right" and p.state == "forwarded" and p.reply is None:
             p.reply = (kind, payload)
             p.reply_trusted = owner.healthy and owner.track_input   # a faulty owner's reply may or may not get through
